@@ -256,12 +256,19 @@ package pilosa
 //@   modifies f.opN, f.ops, f.snapshotting, f.snapshotsRequested, f.snapshotDelays, f.snapshotDelayTime, f.storage
 //@   ensures f.storage != nil && f.storage.$set == old(f.storage.$set)
 //@   ensures f.checksums == old(f.checksums) && f.cache == old(f.cache) && f.rowCache == old(f.rowCache)
+//@   ensures old(bmWF(f.storage) && bmSep(f.storage) && coupled(f.storage)) ==> bmWF(f.storage) && bmSep(f.storage) && coupled(f.storage)
 
 //@ spec bitPos(rowID int, columnID int) = rowID * 1048576 + columnID % 1048576
 //@ spec fragOK(f *fragment) = f != nil && f.storage != nil && f.cache != nil && f.rowCache != nil && f.shard <= 17592186044415
 
 //@ contract (*fragment).unprotectedSetBit props C07,C10,C12,C16,C28
 //@   requires fragOK(f) && rowID < 17592186044415
+// the storage bitmap is a well-formed container collection coupled to its abstract
+// set (established by the decoder / constructors; preserved by every verified
+// mutator), and the target container satisfies the cardinality side condition
+//@   requires bmWF(f.storage) && bmSep(f.storage) && coupled(f.storage)
+//@   requires cm(f.storage, bitPos(rowID, columnID) / 65536) != nil ==> roomOK(cm(f.storage, bitPos(rowID, columnID) / 65536))
+//@   ensures err == nil ==> bmWF(f.storage) && bmSep(f.storage) && coupled(f.storage)
 //@   ensures err == nil ==> f.storage.$set[bitPos(rowID, columnID)] && (changed <==> !old(f.storage.$set[bitPos(rowID, columnID)]))
 //@   ensures err == nil ==> (forall x :: x != bitPos(rowID, columnID) ==> (f.storage.$set[x] <==> old(f.storage.$set[x])))
 //@   ensures err != nil ==> !changed && (forall x :: f.storage.$set[x] <==> old(f.storage.$set[x]))
